@@ -34,7 +34,8 @@ example : Gen.C09.emacsKeyCommands =
      ("c-@", "emacs:_start_selection"), ("escape w", "emacs:_copy"),
      ("s-left", "shift:_start_selection,shift:_extend_selection"),
      ("s-right", "shift:_start_selection,shift:_extend_selection"),
-     ("c-h", "basic:backward-delete-char,shift:_delete"), ("escape", "emacs:_esc")] := by decide
+     ("c-h", "basic:backward-delete-char,shift:_delete"), ("escape", "emacs:_esc"),
+     ("delete", "basic:delete-char,basic:_cut")] := by decide
 
 example : Gen.C09.viKeyHandlers =
     [("x", "_cut,_delete"), ("X", "_delete_before_cursor"), ("s", "_substitute"),
@@ -108,6 +109,8 @@ inductive ECmd
   | base (c : Cmd)
   /-- `c-delete` -/
   | killWordC
+  /-- `delete` (delete-char): removes text without touching the ring -/
+  | deleteChar
   /-- harness: cursor := a, `Buffer.start_selection(ty)`, cursor := b, then `C-w` / `M-w` -/
   | regionTy (a b : Nat) (kill : Bool) (ty : SelType)
   /-- harness: cursor := a, then `k` times s-right (`k > 0`) or `-k` times s-left, then the action -/
@@ -130,6 +133,10 @@ def stepX (reSpace : Char → Bool) (max : Nat) (s : St) (arg : Arg) (cmd : ECmd
     let k := killWordK reSpace s.buf arg.val
     let isRep : Bool := arg = .none ∧ s.prev = .killWordC
     { applyKill max s k (if isRep ∧ s.kwKilled then .fwd else .no) .killWordC with kwKilled := k.push }
+  | .deleteChar =>
+    let n := arg.val
+    let r := if n < 0 then deleteBefore s.buf (-n).toNat else delete s.buf n
+    { s with buf := r.1, dbp := touch s.buf s.dbp r.1, prev := .other }
   | .regionTy a b kill ty =>
     let b1 := setCursor s.buf a
     let b2 := setCursor b1 b
